@@ -92,7 +92,10 @@ def history_suite(ctx):
     from cgsmiles.read_cgsmiles import read_cgsmiles
     rng = ctx.rng('history')
     for _ in range(ctx.budget(40, 600)):
-        case = gen_mol.cut_case(rng, nmax=9) if rng.random() < 0.6 else gen_mol.polymer_case(rng)
+        r0 = rng.random()
+        case = gen_mol.cut_case(rng, nmax=9) if r0 < 0.4 else (gen_mol.polymer_case(rng) if r0 < 0.7 else gen_mol.ambiguous_case(rng))
+        if not case.get('all_atom', True):
+            continue
         s = case['s']
         legacy = case.get('legacy', True)
         base_str, frag_str = s.split('}.', 1)
@@ -127,12 +130,24 @@ def history_suite(ctx):
                     rng.shuffle(defs)
                     m, f = MoleculeResolver.from_string(base_str + '.{' + ','.join(defs) + '}', legacy=legacy).resolve()
                     outs.append(canonical(f, m))
+                # 3b. the three constructors with their DEFAULT arguments agree with each other
+                dflt = []
+                m, f = MoleculeResolver.from_string(s).resolve()
+                dflt.append(canonical(f, m))
+                m, f = MoleculeResolver.from_graph('{' + frag_str.lstrip('{'), read_cgsmiles(base_str)).resolve()
+                dflt.append(canonical(f, m))
+                m, f = MoleculeResolver.from_fragment_dicts(base_str, [read_fragments(frag_str, all_atom=True)]).resolve()
+                dflt.append(canonical(f, m))
                 # 4. the whole string again after all of the above
                 m, f = MoleculeResolver.from_string(s, legacy=legacy).resolve()
                 outs.append(canonical(f, m))
         except Exception as err:    # noqa: BLE001
             ctx.fail(suites.slim(case), f'a later call of the history raised {type(err).__name__}: {str(err)[:80]} although the first call succeeded')
             continue
+        if len(set(dflt)) != 1:
+            which = ['from_string', 'from_graph', 'from_fragment_dicts']
+            odd = [which[i] for i in range(3) if dflt.count(dflt[i]) == 1] or which
+            ctx.fail(suites.slim(case), f'called with default arguments, the constructors give different results ({", ".join(odd)} differs)')
         if before != after:
             ctx.fail(suites.slim(case), 'a fragment library passed to from_fragment_dicts was modified by resolving')
         for i, o in enumerate(outs):
